@@ -18,6 +18,7 @@ from props import c22
 ID = "C28"
 GEN = []
 RULE = ("cases: one case = one seeded history (10..40 operations) of allocate/write/close/abort/advance-clock/disconnect "
+        "(plus mutable delete-vector requests on storage indexes with uploads in progress) "
         "against one server configuration (read-only or not, reserved_space 0..beyond capacity) on one simulated disk "
         "(capacity 0..1500 bytes, f_frsize 1/4/512, statvfs working / failing / missing); allocation sizes are aimed at the "
         "space remaining (exact fit, one byte more, half, third); distinct = distinct (configuration, disk, operation list); "
@@ -189,9 +190,11 @@ class SpaceHistory(c22.History):
         return got
 
     def term(self):
-        ops = [c22.c_op(o, None) for o in self.ops]
+        ops = [c22.c_op(o, None) for o in self.ops if o[0] != "mutdelete"]
         exp = []
-        for (got, al), rep in zip(self.obs, self.reported):
+        for o, (got, al), rep in zip(self.ops, self.obs, self.reported):
+            if o[0] == "mutdelete":
+                continue
             c = c22.c_res(got)
             if c is None:
                 return None
@@ -225,7 +228,7 @@ class SpaceGen(c22.Gen):
         r = self.r
         live = self.live(ref)
         for _ in range(20):
-            kind = r.choice(["alloc"] * 10 + ["write"] * 8 + ["close"] * 4 + ["abort"] * 3 + ["advance"] * 2 + ["disconnect"] * 1 + ["read"] * 1)
+            kind = r.choice(["alloc"] * 10 + ["write"] * 8 + ["close"] * 4 + ["abort"] * 3 + ["advance"] * 2 + ["disconnect"] * 1 + ["read"] * 1 + ["mutdelete"] * 2)
             if kind == "alloc":
                 op = self.alloc(ref)
             elif kind == "write":
@@ -236,6 +239,8 @@ class SpaceGen(c22.Gen):
                 op = self.advance(ref)
             elif kind == "disconnect":
                 op = ("disconnect", r.randrange(3))
+            elif kind == "mutdelete":
+                op = self.mutdelete(ref)
             else:
                 op = self.read(ref)
             if op is not None:
@@ -285,7 +290,7 @@ def arithmetic(ctx):
     from allmydata.util import fileutil
     ctx.correspondence("fileutil-available-space-vs-model")
     terms, info = [], []
-    for i in range(ctx.n(80, 1200)):
+    for i in range(ctx.n(60, 1200)):
         r = ctx.rng("arith", i)
         fr = r.choice([1, 1, 512, 1024, 4096, 65536])
         bavail = r.choice([0, 1, 2, 1000, 2 ** 20, 2 ** 31, 2 ** 40, r.getrandbits(34)])
@@ -333,7 +338,7 @@ def run(ctx):
             h = replay_space(ctx, "corpus-" + os.path.basename(path), rec)
             ctx.case(("corpus", os.path.basename(path)), kind="corpus-space-history")
             hs.append(h)
-    n = ctx.n(90, 1500)
+    n = ctx.n(70, 1500)
     for i in range(n):
         r = ctx.rng("space", i)
         h = run_space_history(ctx, "s%d" % i, r, r.randint(10, 40))
@@ -373,6 +378,6 @@ def replay(ctx, rec):
             ctx.mismatch("space-model-vs-implementation-history", "model and implementation differ on the replayed history", case=case)
             m = "sobserve_from (mkConfig %s %s) (mkDisk %s %s %s) init %s" % (
                 T.boolean(h.ro), T.N(h.reserved), T.N(h.disk.capacity), T.N(h.disk.frsize), MODES[h.disk.mode],
-                T.lst([c22.c_op(o, None) for o in h.ops]))
+                T.lst([c22.c_op(o, None) for o in h.ops if o[0] != "mutdelete"]))
             out["model"] = ctx.coq_eval(IMPORTS, m)[-3000:]
     return out
